@@ -13,4 +13,6 @@ use crate::{generic::Generic, generic::NoIoDrop, EventSource, Interest, Mode, Po
 //@ include ping_body
 //@ include ping_write_body
 } // mod eventfd
+// ping.rs proper only re-exports the platform module (type aliases + a forwarding make_ping): not extracted
+pub use self::eventfd::{make_ping, Ping, PingSource};
 } // mod ping
